@@ -1067,6 +1067,15 @@ impl FixtureDatabase {
     }
 }
 
+// Verification hook (off unless built with --cfg pytest_language_server_verif):
+// public wrapper for the scan's last phase (imported modules, plugin re-analysis).
+#[cfg(pytest_language_server_verif)]
+impl FixtureDatabase {
+    pub fn verif_scan_imported_fixture_modules(&self, root_path: &Path) {
+        self.scan_imported_fixture_modules(root_path);
+    }
+}
+
 #[cfg(test)]
 mod tests {
     use super::*;
